@@ -1,117 +1,347 @@
+// C16 correspondence harness: end to end through the real Proxy and its PUBLIC API only.
+// One fake client, three fake backends (ServerInfo+ServerDialer) scripted per dial attempt; sequences of
+// player.CreateConnectionRequest(server).Connect(ctx) — sequential, overlapping a stalled attempt, concurrent pairs,
+// and pairs forced past checkServer together — interleaved with kicks / connection drops in play.  After every op
+// the world is observed at quiescence (CurrentServer, RegisteredServer.Players, backend connection states,
+// ConnectionResult statuses); the Lean driver accepts or rejects each observation as a trace of the model.
 package main
 
 import (
 	"fmt"
 	"runtime"
+	"strings"
 	"sync"
 	"time"
-	"os"
-	"strings"
 
 	"go.minekube.com/gate/pkg/gate/proto"
+
+	"verifharness/hx"
 )
 
-func probe(p proto.Protocol, scripts map[string][]string, ops string) {
+type line struct{ class, op, impl string }
+
+type scenario struct {
+	proto proto.Protocol
+	try   []string
+	rng   *hx.Rng
+	fixed []string // fixed op list (regression scenarios); nil = generate online
+	nops  int
+	out   []line
+}
+
+func isModern(p proto.Protocol) bool { return p >= 764 }
+
+func (sc *scenario) emit(class, op, impl string) {
+	sc.out = append(sc.out, line{fmt.Sprintf("%s/%s", class, map[bool]string{true: "modern", false: "legacy"}[isModern(sc.proto)]), op, impl})
+}
+
+type pendingReq struct{ ch chan string }
+
+// run executes the scenario against a fresh world.
+func (sc *scenario) run() {
 	names := []string{"s1", "s2", "s3"}
-	w, err := newWorld(p, names, names, scripts)
+	w, err := newWorld(sc.proto, names, sc.try, map[string][]string{})
+	m := 0
+	if isModern(sc.proto) {
+		m = 1
+	}
+	sc.emit("reset", fmt.Sprintf("reset %d %d %s -", sc.proto, m, strings.Join(sc.try, ",")), map[bool]string{true: "ok", false: "setup-failed"}[err == nil])
 	if err != nil {
-		fmt.Println("setup", err)
 		return
 	}
 	defer w.close()
-	fmt.Printf("--- proto %d scripts %v\n", p, scripts)
-	pending := map[string]chan string{}
-	for _, op := range strings.Fields(ops) {
-		f := strings.Split(op, ":")
-		switch f[0] {
-		case "login":
-			err := w.login()
-			fmt.Println(op, "=>", err, w.observe())
-		case "req":
-			fmt.Println(op, "=>", w.connect(f[1]), w.observe())
-		case "ind":
-			fmt.Println(op, "=>", w.connectIndication(f[1]), w.observe())
-		case "start":
-			ch := make(chan string, 1)
-			pending[f[1]] = ch
-			for len(w.newConn) > 0 {
-				<-w.newConn
+	var pend []pendingReq
+	r := sc.rng
+	alive := true
+	loggedIn := false
+	step := 0
+	nextFixed := func() (string, bool) {
+		if step < len(sc.fixed) {
+			s := sc.fixed[step]
+			step++
+			return s, true
+		}
+		return "", false
+	}
+	others := func(cur string) []string {
+		var o []string
+		for _, n := range names {
+			if n != cur {
+				o = append(o, n)
 			}
-			go func() { ch <- w.connect(f[2]) }()
-			c := <-w.newConn
-			<-c.stalled
-			fmt.Println(op, "=> stalled", w.observe())
-		case "release":
-			w.mu.Lock()
-			for _, c := range w.allConns {
-				select {
-				case <-c.release:
-				default:
-					close(c.release)
+		}
+		return o
+	}
+	behs := []string{"a", "a", "a", "r", "kl", "el", "kt", "et", "enc"}
+	if isModern(sc.proto) {
+		behs = append(behs, "kc", "kc")
+	}
+	for alive {
+		var op string
+		if sc.fixed != nil {
+			var ok bool
+			if op, ok = nextFixed(); !ok {
+				break
+			}
+		} else {
+			if step >= sc.nops {
+				break
+			}
+			step++
+			cur := "-"
+			if loggedIn {
+				if cs := w.player.CurrentServer(); cs != nil {
+					cur = cs.Server().ServerInfo().Name()
 				}
 			}
-			w.mu.Unlock()
-			fmt.Println(op, "=>", <-pending[f[1]], w.observe())
-		case "race":
-			// force both requests past checkServer before either publishes its in-flight connection
-			var mu sync.Mutex
-			arrived := 0
-			gate := make(chan struct{})
-			w.nameHook = func(*server) {
-				pcs := make([]uintptr, 8)
-				n := runtime.Callers(2, pcs)
-				fr := runtime.CallersFrames(pcs[:n])
-				for {
-					f, more := fr.Next()
-					if strings.HasSuffix(f.Function, ".newServerConnection") {
-						mu.Lock()
-						arrived++
-						first := arrived == 1
-						if arrived == 2 {
-							close(gate)
-						}
-						mu.Unlock()
-						if first || arrived <= 2 {
+			switch {
+			case !loggedIn && step == 1 && r.Chance(1, 3):
+				op = "script " + hx.Pick(r, names) + " " + hx.Pick(r, []string{"kl", "r", "el", "kt", "a.kl"})
+			case !loggedIn:
+				op = "login"
+			case len(pend) > 0:
+				switch r.Intn(6) {
+				case 0, 1:
+					op = "req " + hx.Pick(r, names)
+				case 2:
+					o := others(cur)
+					op = "par " + hx.Pick(r, o) + " " + hx.Pick(r, names)
+				case 3:
+					if cur != "-" && r.Chance(1, 2) {
+						op = hx.Pick(r, []string{"kick ", "drop "}) + cur
+					} else {
+						op = "req " + hx.Pick(r, names)
+					}
+				default:
+					op = "release"
+				}
+			default:
+				switch r.Intn(12) {
+				case 0, 1, 2:
+					op = "req " + hx.Pick(r, names)
+				case 3, 4:
+					d := hx.Pick(r, others(cur))
+					b := hx.Pick(r, behs)
+					n := 1 + r.Intn(2)
+					bs := []string{b}
+					for i := 1; i < n; i++ {
+						bs = append(bs, hx.Pick(r, behs))
+					}
+					op = "script " + d + " " + strings.Join(bs, ".")
+				case 5, 6:
+					d := hx.Pick(r, others(cur))
+					op = "script " + d + " s:" + hx.Pick(r, behs) + "|start " + d
+				case 7:
+					o := others(cur)
+					op = "par " + o[0] + " " + o[1]
+					if r.Bool() {
+						op = "par " + o[1] + " " + hx.Pick(r, names)
+					}
+				case 8:
+					o := others(cur)
+					if cur != "-" {
+						op = "race " + o[r.Intn(2)] + " " + o[r.Intn(2)]
+					} else {
+						op = "req " + hx.Pick(r, names)
+					}
+				case 9:
+					if cur != "-" {
+						op = "kick " + cur
+					} else {
+						op = "req " + hx.Pick(r, names)
+					}
+				case 10:
+					if cur != "-" {
+						op = "drop " + cur
+					} else {
+						op = "req " + hx.Pick(r, names)
+					}
+				default:
+					if r.Chance(1, 4) {
+						op = "quit"
+					} else {
+						op = "req " + hx.Pick(r, names)
+					}
+				}
+			}
+		}
+		for _, one := range strings.Split(op, "|") {
+			f := strings.Fields(one)
+			var impl string
+			switch f[0] {
+			case "script":
+				s := w.servers[f[1]]
+				s.mu.Lock()
+				s.script = append(append([]string(nil), make([]string, s.dials)...), strings.Split(f[2], ".")...)
+				s.mu.Unlock()
+				impl = "ok"
+			case "login":
+				impl = hx.Guard(30*time.Second, func() string {
+					if err := w.login(); err != nil {
+						alive = false
+						return "fail " + w.observe(true)
+					}
+					loggedIn = true
+					return "ok " + w.observe(true)
+				})
+			case "req":
+				impl = hx.Guard(30*time.Second, func() string { return w.connect(f[1]) + " " + w.observe(false) })
+			case "start":
+				impl = hx.Guard(30*time.Second, func() string {
+					for len(w.newConn) > 0 {
+						<-w.newConn
+					}
+					ch := make(chan string, 1)
+					go func() { ch <- w.connect(f[1]) }()
+					for {
+						select {
+						case res := <-ch:
+							return "returned:" + res + " " + w.observe(false)
+						case c := <-w.newConn:
 							select {
-							case <-gate:
-							case <-time.After(time.Second):
+							case <-c.stalled:
+								pend = append(pend, pendingReq{ch})
+								return "stalled " + w.observe(false)
+							case res := <-ch:
+								return "returned:" + res + " " + w.observe(false)
 							}
 						}
-						return
 					}
-					if !more {
-						return
+				})
+			case "release":
+				impl = hx.Guard(30*time.Second, func() string {
+					w.releaseAll()
+					var rs []string
+					for _, p := range pend {
+						rs = append(rs, <-p.ch)
 					}
-				}
+					pend = nil
+					if len(rs) == 0 {
+						rs = []string{""}
+					}
+					return strings.Join(rs, ",") + " " + w.observe(false)
+				})
+			case "par":
+				impl = hx.Guard(30*time.Second, func() string {
+					r1, r2 := make(chan string, 1), make(chan string, 1)
+					go func() { r1 <- w.connect(f[1]) }()
+					go func() { r2 <- w.connect(f[2]) }()
+					a, b := <-r1, <-r2
+					return a + " " + b + " " + w.observe(false)
+				})
+			case "race":
+				impl = hx.Guard(30*time.Second, func() string {
+					a, b := w.race(f[1], f[2])
+					return a + " " + b + " " + w.observe(false)
+				})
+			case "kick":
+				impl = hx.Guard(30*time.Second, func() string {
+					if !w.kickInPlay(f[1]) {
+						return "nolive " + w.observe(true)
+					}
+					return w.observe(true)
+				})
+			case "drop":
+				impl = hx.Guard(30*time.Second, func() string {
+					if !w.dropInPlay(f[1]) {
+						return "nolive " + w.observe(true)
+					}
+					return w.observe(true)
+				})
+			case "quit":
+				impl = hx.Guard(30*time.Second, func() string {
+					w.client.Conn.Close()
+					alive = false
+					return w.observe(true)
+				})
+			default:
+				continue
 			}
-			r1, r2 := make(chan string, 1), make(chan string, 1)
-			go func() { r1 <- w.connect(f[1]) }()
-			go func() { r2 <- w.connect(f[2]) }()
-			a, b := <-r1, <-r2
-			w.nameHook = nil
-			fmt.Println(op, "=>", a, b, w.observe())
-		case "kick":
-			fmt.Println(op, "=>", w.kickInPlay(f[1]), w.observe())
-		case "drop":
-			fmt.Println(op, "=>", w.dropInPlay(f[1]), w.observe())
+			if impl == "hang" || impl == "panic" {
+				alive = false
+			}
+			if strings.Contains(impl, "act=0") {
+				alive = false
+			}
+			sc.emit(f[0], one, impl)
 		}
 	}
+	// let outstanding requests finish so that nothing of this world lingers
+	w.releaseAll()
 }
 
 func main() {
-	if len(os.Args) > 1 && os.Args[1] == "probe" {
-		for _, p := range []proto.Protocol{340, 767} {
-			probe(p, nil, "login race:s2:s3")
-			probe(p, nil, "login race:s2:s2")
-			probe(p, map[string][]string{"s2": {"s:a"}}, "login start:A:s2 req:s3 req:s3 release:A")
-			continue
-			probe(p, nil, "login req:s2 req:s2 req:s1 req:s3")
-			probe(p, map[string][]string{"s2": {"kl", "r", "el", "kt", "kc", "et", "enc", "a"}}, "login req:s2 req:s2 req:s2 req:s2 req:s2 req:s2 req:s2 req:s2 req:s2")
-			probe(p, map[string][]string{"s2": {"s:a"}}, "login start:A:s2 req:s3 req:s3 release:A")
-			probe(p, map[string][]string{"s2": {"s:a"}}, "login start:A:s2 kick:s1 release:A")
-			probe(p, nil, "login kick:s1 drop:s2 req:s1")
-			probe(p, map[string][]string{"s1": {"kl"}}, "login req:s1")
-		}
-		return
+	run := hx.Start()
+	r := run.Rng
+	legacy := []proto.Protocol{47, 340}
+	modern := []proto.Protocol{765, 767, 774}
+	all := []string{"s1", "s2", "s3"}
+	var scs []*scenario
+	// ---- fixed regression scenarios (the witnesses of the two repaired defects and of the known finding) ----
+	fixed := [][]string{
+		// a request answered InProgress must not clear the in-flight slot of the stalled request
+		{"login", "script s2 s:a|start s2", "req s3", "req s3", "req s1", "release", "req s2", "req s1"},
+		// two requests held between check and publication: exactly one may proceed
+		{"login", "race s2 s3", "req s1", "race s2 s2"},
+		// kick from the current server while a switch is in flight (known finding): the redirect is a second attempt
+		{"login", "script s2 s:a|start s2", "kick s1", "release"},
+		// every backend fault once, then a healthy switch
+		{"login", "script s2 kl.r.el.kt.et.enc.a", "req s2", "req s2", "req s2", "req s2", "req s2", "req s2", "req s2", "req s2", "req s1"},
+		// fallback chain after a kick; exhausted list disconnects the player
+		{"login", "kick s1", "drop s2", "script s2 r|script s3 kl", "kick s1"},
+		// stalled attempt that fails after release; requests in between are no-ops
+		{"login", "script s3 s:kl|start s3", "req s2", "par s2 s1", "release", "req s3"},
+		// initial join falls back
+		{"script s1 kl", "login", "req s1", "quit"},
 	}
+	for _, f := range fixed {
+		for _, p := range []proto.Protocol{340, 767} {
+			scs = append(scs, &scenario{proto: p, try: all, fixed: f, rng: hx.NewRng(1)})
+		}
+	}
+	// modern-only faults in the configuration phase
+	for _, p := range modern {
+		scs = append(scs, &scenario{proto: p, try: all, rng: hx.NewRng(1),
+			fixed: []string{"login", "script s2 kc.a", "req s2", "req s2", "script s3 s:kc|start s3", "req s1", "release", "req s1"}})
+	}
+	n := run.Scale(110, 900)
+	for i := 0; i < n; i++ {
+		var p proto.Protocol
+		if i%2 == 0 {
+			p = hx.Pick(r, legacy)
+		} else {
+			p = hx.Pick(r, modern)
+		}
+		try := all
+		switch r.Intn(4) {
+		case 0:
+			try = []string{"s2", "s1", "s3"}
+		case 1:
+			try = []string{"s1", "s3"}
+		}
+		scs = append(scs, &scenario{proto: p, try: try, rng: hx.NewRng(r.U64()), nops: 5 + r.Intn(6)})
+	}
+	par := 6
+	if c := runtime.NumCPU(); c < par {
+		par = c
+	}
+	sem := make(chan struct{}, par)
+	var wg sync.WaitGroup
+	for _, sc := range scs {
+		wg.Add(1)
+		sem <- struct{}{}
+		go func() {
+			defer wg.Done()
+			defer func() { <-sem }()
+			sc.run()
+		}()
+	}
+	wg.Wait()
+	for _, sc := range scs {
+		for _, l := range sc.out {
+			run.Case(l.class, l.op, l.impl)
+		}
+	}
+	run.Extra["scenarios"] = len(scs)
+	run.Finish()
 }
